@@ -49,7 +49,8 @@ def _strategy(draw):
     if draw(st.integers(0, 9)) == 0:
         return {"kind": "rot", "angles": [[draw(st.floats(-7, 7, allow_nan=False)) for _ in range(3)]
                                           for _ in range(20)], "rng": 1}
-    spec = draw(gc.system(max_res=6, max_total_mol=4, allow_vs=False))
+    with_vs = draw(st.integers(0, 3)) == 0
+    spec = draw(gc.system(max_res=6, max_total_mol=4, allow_vs=with_vs))
     # enlarge some residues to 5-6 atoms for chirality
     resdefs = {}
     for mt in spec["moltypes"]:
@@ -57,7 +58,7 @@ def _strategy(draw):
             resdefs[res["resname"]] = res
     types = [a["name"] for a in spec["atomtypes"]]
     for rn, res in resdefs.items():
-        if draw(st.booleans()):
+        if res["vs"] is None and draw(st.booleans()):
             extra = draw(st.integers(1, 3))
             base = len(res["atoms"])
             for k in range(extra):
@@ -69,8 +70,14 @@ def _strategy(draw):
         mt["residues"] = [resdefs[r["resname"]] for r in mt["residues"]]
     build = []
     templates = {}
+    volumes = {}
     for rn, res in resdefs.items():
         n = len(res["atoms"])
+        if res["vs"] is not None:
+            # generated template; sometimes with a user supplied size
+            if draw(st.booleans()):
+                volumes[rn] = draw(st.sampled_from([0.45, 0.6]))
+            continue
         if n >= 2 and draw(st.integers(0, 2)) > 0:
             pts, shape = draw(_template_coords(n))
             templates[rn] = {"coords": pts, "shape": shape}
@@ -80,6 +87,10 @@ def _strategy(draw):
             build.append("[ bonds ]")
             for i, j, _ in res["bonds"]:
                 build.append(f"{res['atoms'][i]['name']} {res['atoms'][j]['name']}")
+    if volumes:
+        build.append("[ volumes ]")
+        for rn, vol in volumes.items():
+            build.append(f"{rn} {vol!r}")
     spec["build"] = build or None
     spec["user_templates"] = templates
     edge = gc.dilute_box(spec)
